@@ -22,7 +22,10 @@ def preflight():
         b = [rnd.randint(0, 9) for _ in range(rnd.randint(1, 6))]
         assert list(npshim.argsort(b)) == [int(x) for x in numpy.argsort(numpy.array(b), kind='stable')], b
         assert npshim.max(b) == int(numpy.max(b))
-    return dict(npshim_vs_numpy='searchsorted/argsort/max identical on 2000 random small arrays (argsort compared with kind=stable)')
+    from stubs.validate import validate_fakeread
+    out_ = dict(npshim_vs_numpy='searchsorted/argsort/max identical on 2000 random small arrays (argsort compared with kind=stable)')
+    out_.update(validate_fakeread(300))
+    return out_
 
 
 def _mk(n, coords, strands):
